@@ -1,0 +1,16 @@
+//go:build verif
+
+package desync
+
+// VerifMountHandle, when set by the verification harness, is called by
+// indexFileHandle.read with the offset and length of the request: "want"
+// before the handle's mutex is taken, "seek" before the Seek, "read" before the
+// Read and "unlock" before the deferred Unlock. It lets the harness schedule
+// concurrent requests on one handle and record what each of them did.
+var VerifMountHandle func(ev string, off int64, n int)
+
+func verifMountHandle(ev string, off int64, n int) {
+	if f := VerifMountHandle; f != nil {
+		f(ev, off, n)
+	}
+}
